@@ -130,6 +130,19 @@ def run_fy(pair, rng, variant, opts):
                 mult = rng.below((0xFFFFFFFF - c) // m + 1)
                 raws.append(c + m * mult if rng.chance(1, 2) else c)
             vectors.append(raws)
+    # natural randomness: no forced seed; the implementation takes its seed from the VM's
+    # block randomness; the seed it used is read from the draw tap of a first run and handed to the
+    # model for the identical re-run (same snapshot, same transaction id => same randomness)
+    if kk > 0:
+        tr.send("restore f")
+        probe = call_line(STRANGER, tr.round, tr.epoch, "select", [], budget=None)
+        r0 = canon.parse_R(tr.pair.impl.ask(probe))
+        taps = canon.parse_list(r0.get("tap", "[]")) if r0["st"] == "ok" else []
+        tr.natural = dict(st=r0["st"], taps=taps, msg=r0.get("msg", ""))
+        seed_hex = taps[0].split(":")[0] if taps else "00" * 32
+        tr.send("restore f")
+        tr.send(probe, model_line=call_line(STRANGER, tr.round, tr.epoch, "select", [], budget=None, seeds=[seed_hex]))
+        tr.dump()
     for raws in vectors:
         tr.send("restore f")
         budget = None if rng.chance(1, 2) else rng.below(3)
@@ -337,6 +350,7 @@ def run_perm(pair, rng, variant, opts):
     users = [10, 11, 12]
     if not su.deploy(users):
         return tr
+    tr.send("abi " + variant)                              # endpoint table vs the generated ABI
     tr.call(OWNER, "setSupport", [SUPPORT])
     if variant in NFT:
         tr.call(OWNER, "sftSetup")
